@@ -323,6 +323,21 @@ fn dedup_decls(out: &mut Vec<Decl>) {
     });
 }
 
+/// fieldless enums with explicit discriminants (`Low = 1, Mid = 6, High = 11`): the constructor
+/// index is the position (or the name order), never the discriminant
+fn discriminant_enums(out: &mut Vec<Decl>, ext: &mut Vec<(String, String, usize)>) {
+    for (i, (names, sorted)) in [(["Low", "Mid", "High"], false), (["Zed", "Alpha", "Mid"], true)].iter().enumerate() {
+        let name = format!("ED{i}");
+        let variants: Vec<VariantDescr> = names.iter().map(|n| variant(VKind::Unit, n)).collect();
+        let ed = EnumDescr { name: name.clone(), sorted: *sorted, variants };
+        out.push(Decl { name: name.clone(), ty: Ty::Enum(Arc::new(ed.clone())), tags: vec!["enum", "discriminants"], opt_spelling: 0 });
+        let xname = format!("{name}X");
+        let (x, idx) = extend_enum(&ed, &xname, VKind::Unit);
+        out.push(Decl { name: xname.clone(), ty: Ty::Enum(Arc::new(x)), tags: vec!["enum", "discriminants", "extension"], opt_spelling: 0 });
+        ext.push((name, xname, idx));
+    }
+}
+
 /// evolved records inside the chunks of evolved records (a decoder's region of a region)
 fn nested_evolved(out: &mut Vec<Decl>) {
     let n1v = Val::Rec(vec![Val::U(0), Val::none()]);
@@ -596,6 +611,7 @@ pub fn build(thorough: bool) -> Universe {
     let mut ext = Vec::new();
     enums(&mut u.decls, &mut ext);
     mixed_case_enums(&mut u.decls, &mut ext);
+    discriminant_enums(&mut u.decls, &mut ext);
     u.enum_ext = ext;
     histories(&mut u, if thorough { 3 } else { 2 });
     variant_histories(&mut u);
